@@ -97,6 +97,15 @@ class Agg:
         return f'{self.ty}#{self.variant}{self.fields}'
 
 
+class Closure(Agg):
+    """closure value; `body` is the MIR Fn of its body (spans alone are ambiguous for macro-made closures)"""
+    __slots__ = ('body',)
+
+    def __init__(self, ty, fields, body):
+        Agg.__init__(self, ty, 0, fields)
+        self.body = body
+
+
 class Ref:
     """thin pointer to slot cont[key] (cont: list or dict)"""
     __slots__ = ('cont', 'key')
@@ -208,7 +217,10 @@ def show_bytes(items):
 
 def deref(x):
     while isinstance(x, Ref):
-        x = x.get()
+        try:
+            x = x.cont[x.key]
+        except (KeyError, IndexError):
+            return None
     return x
 
 
